@@ -42,7 +42,8 @@ def verify(sd):
             demo_t += ".txt"
         pkg = None
         if os.path.exists(demo_t):
-            pkg = meta.get("demo_pkg") or demo_pkg(meta, sd)
+            pkg = meta.get("demo_pkg") or meta.get("demo_package_dir") or meta.get("demo_dir") or demo_pkg(meta, sd)
+            pkg = pkg.strip("/")
             shutil.copy(demo_t, os.path.join(wt, pkg, "zz_demo_test.go"))
             demo_cmd = "go test -count=1 -run 'Demo|C[0-9][0-9]' ./%s/" % pkg
             m = re.search(r"-run\s+'?\"?([\w|^$]+)", meta.get("demo_run", ""))
@@ -106,7 +107,10 @@ def run(sd, pid, tier="quick", seed="1"):
     rc, out = sh("git -C /repo apply %s" % patch)
     assert rc == 0, out
     try:
-        p = subprocess.run(["./check", pid, "--tier", tier, "--seed", seed], cwd="/verif", capture_output=True, text=True)
+        # evidence of a run against a seeded (mutated) tree must never land in /verif/evidence
+        os.makedirs("/tmp/verif_seed_evidence", exist_ok=True)
+        p = subprocess.run(["./check", pid, "--tier", tier, "--seed", seed], cwd="/verif", capture_output=True, text=True,
+                           env=dict(os.environ, VERIF_EVIDENCE_DIR="/tmp/verif_seed_evidence"))
         lines = (p.stdout + p.stderr).splitlines()
         keep = [l for l in lines if l.startswith(("VIOLATION", "KNOWN", "INFRA", "DRIFT")) or "what:" in l][:8]
         print("rc=%d" % p.returncode)
